@@ -46,7 +46,7 @@ def jsonable(x):
 
 class Res(object):
     """What one explored case (or one explored state) produced."""
-    __slots__ = ("n", "viol", "outcomes", "samples", "extra")
+    __slots__ = ("n", "viol", "outcomes", "samples", "extra", "ret")
 
     def __init__(self):
         self.n = 0              # executions / cells evaluated
@@ -54,6 +54,7 @@ class Res(object):
         self.outcomes = []      # outcome-class labels (hashable, small)
         self.samples = []       # a few written-out cases
         self.extra = {}         # free-form counters to be summed (states, transitions, ...)
+        self.ret = None         # optional return value for the caller of pmap(collect=True)
 
     def v(self, key, clause, case, observed=None, expected=None):
         self.viol.append(dict(key=key, clause=clause, case=jsonable(case),
